@@ -134,6 +134,7 @@ def stepGrp {α : Type} (g : GroupOps α) (st : PState α) (stmt : String) : Exc
       | "mul", [k, a] => do pure (g.smul (← S k) (← P a))
       | "mulbase", [k] => do pure (g.smul (← S k) g.base)
       | "set", [a] => P a
+      | "clone", [a] => P a
       | "dec", [h] => match hexB h with
         | some bs => match g.dec bs with | some v => pure v | none => throw "decode"
         | none => throw "hex"
